@@ -252,6 +252,9 @@ func installSpecials(in *Interp, p *Pkg) {
 				return Nil(), nil
 			}
 		}
+		if in.Cur.Undetermined {
+			return nil, in.unsure("set! resolved in the package a refused in-package left current")
+		}
 		if _, ok := in.Cur.Syms[name]; ok {
 			in.Cur.Syms[name] = x
 			return Nil(), nil
@@ -439,6 +442,9 @@ func installSpecials(in *Interp, p *Pkg) {
 		}
 		switch strings.Count(a[0].S, ":") {
 		case 0:
+			if in.Cur.Undetermined {
+				return nil, in.unsure("qualified-symbol in the package a refused in-package left current")
+			}
 			return QSym(in.Cur.Name + ":" + a[0].S), nil
 		case 1:
 			if a[0].Q {
